@@ -84,6 +84,7 @@ type HarnessSpec struct {
 	BigShared bool              `json:"big_shared,omitempty"` // math/big storage-sharing model: struct copies of a big.Int share the limbs
 	External  []string          `json:"external,omitempty"`  // package path prefixes treated as uninterpreted
 	Contracts map[string]Contract `json:"contracts,omitempty"` // per external function: which pointer arguments it writes
+	GlobalsAll bool             `json:"globals_all,omitempty"` // dump every package-level variable of the package under test
 	Globals   []string          `json:"globals,omitempty"` // package-level variables whose (natively dumped) values the harness reads
 	Mutants   []Mutant          `json:"mutants,omitempty"`
 	ExpectSat []string          `json:"expect_sat,omitempty"` // assertion ids that MUST be violated (vacuity twins)
@@ -312,6 +313,21 @@ func runGroup(hs []HarnessSpec) []*HarnessReport {
 		if err != nil {
 			rep.ToolError = "load: " + err.Error()
 			continue
+		}
+		if h.GlobalsAll && pkg != nil {
+			// every package-level variable of the package under test (a change may introduce new ones)
+			seen := map[string]bool{}
+			for _, g := range h.Globals {
+				seen[g] = true
+			}
+			var extra []string
+			for name, mem := range pkg.Members {
+				if _, ok := mem.(*ssa.Global); ok && !seen[name] && !strings.Contains(name, "$") && name != "_" && !strings.HasPrefix(name, "verif") {
+					extra = append(extra, name)
+				}
+			}
+			sort.Strings(extra)
+			h.Globals = append(append([]string{}, h.Globals...), extra...)
 		}
 		if len(h.Globals) > 0 {
 			hh := h
